@@ -207,3 +207,12 @@ def ensure_vderive(cfg):
 def run_vderive(cfg, cmd, prop, tier, out_json, extra=None):
     exe = ensure_vderive(cfg)
     return run_engine([exe, cmd, "--prop", prop, "--tier", tier, "--out", out_json] + (extra or []), out_json, timeout=3600)
+
+
+def ensure_cli():
+    """Build the real logos-cli from /repo's working tree (optimised dev profile: the CLI is run thousands of times)."""
+    tdir = os.path.join(ENGINE, "cli-target")
+    if "cli" not in _built:
+        sh(["cargo", "build", "-p", "logos-cli", "--offline", "-q", "--target-dir", tdir], cwd=REPO, timeout=3600, extra_env={"CARGO_PROFILE_DEV_OPT_LEVEL": "2"})
+        _built.add("cli")
+    return os.path.join(tdir, "debug", "logos-cli")
